@@ -80,6 +80,9 @@ type domUndo struct {
 func (in *Interp) litMark() int { return len(in.litTrail) }
 func (in *Interp) domMark() int { return len(in.domTrail) }
 func (in *Interp) undoTo(lm, dm int) {
+	if len(in.litTrail) > lm || len(in.domTrail) > dm {
+		in.knowGen++
+	}
 	for len(in.litTrail) > lm {
 		u := in.litTrail[len(in.litTrail)-1]
 		in.litTrail = in.litTrail[:len(in.litTrail)-1]
@@ -105,11 +108,13 @@ func (in *Interp) setLit(id int32, val bool) {
 	if had && old == val {
 		return
 	}
+	in.knowGen++
 	in.litTrail = append(in.litTrail, litUndo{id, had, old})
 	in.lits[id] = val
 }
 
 func (in *Interp) setDom(v *Term, d ByteSet) {
+	in.knowGen++
 	old, had := in.doms[v]
 	in.domTrail = append(in.domTrail, domUndo{v, had, old})
 	in.doms[v] = d
@@ -178,6 +183,30 @@ func (in *Interp) evalLit(t *Term) int8 {
 		}
 		return -1
 	}
+	// memo per knowledge generation (terms are DAGs; without it shared subterms are re-evaluated)
+	if t.size > 4 {
+		id := int(t.id)
+		if id < len(in.evalGen) && in.evalGen[id] == in.knowGen {
+			return in.evalVal[id]
+		}
+		r := in.evalLit1(t)
+		if id >= len(in.evalGen) {
+			n := id*2 + 64
+			g := make([]uint32, n)
+			copy(g, in.evalGen)
+			in.evalGen = g
+			v := make([]int8, n)
+			copy(v, in.evalVal)
+			in.evalVal = v
+		}
+		in.evalGen[id] = in.knowGen
+		in.evalVal[id] = r
+		return r
+	}
+	return in.evalLit1(t)
+}
+
+func (in *Interp) evalLit1(t *Term) int8 {
 	switch t.op {
 	case ONot:
 		return -in.evalLit(t.a)
